@@ -39,7 +39,7 @@ impl AdjacencyList {
         &&& forall|a: int, b: int, c: int| #![trigger self.has(a, b), self.has(a, c)] self.has(a, b) && self.has(a, c) ==> b == c
     }
 
-    /*@fn impl=AdjacencyList trait=RandomRecursiveTree name=random_recursive_tree loopify=Vec fuse wrap=fn:once props=C15,C13
+    /*@fn impl=AdjacencyList trait=RandomRecursiveTree name=random_recursive_tree loopify=Vec noisolation fuse wrap=fn:once props=C15,C13
     ensures
         order >= 1,
         r.wf(),
@@ -87,7 +87,7 @@ impl AdjacencyList {
     // vstd: `f64` comparison (`rng.next_f64() < p`) and `RangeInclusive<f64>::contains` are uninterpreted, and the stream's
     // `next_f64` is left unconstrained (its [0, 1) range is the Kani half of C15).  What IS proved holds for every outcome of
     // every comparison, hence for every p and every seed.  "panics for p outside [0, 1]" is the `assert!` kept as a `vpanic()` site.
-    /*@fn impl=AdjacencyList trait=ErdosRenyi name=erdos_renyi loopify=Vec,BTreeSet fuse wrap=chain props=C15,C13
+    /*@fn impl=AdjacencyList trait=ErdosRenyi name=erdos_renyi loopify=Vec,BTreeSet noisolation fuse wrap=chain props=C15,C13
     ensures
         order >= 1,
         r.wf(),
